@@ -424,6 +424,43 @@ func build(c *vlib.Ctx, shape string) *scen {
 		}
 	case "v2pk":
 		v2pay(5, k.Custom["PK"], []string{"A"}, nil)
+	case "v2two":
+		// two genesis outputs of the same address spent by one transaction
+		if !advance(c, sim, 2, nil) {
+			return s
+		}
+		e1, e2 := gen(sim, 2), gen(sim, 12)
+		pol := k.Policy("A")
+		txn := types.V2Transaction{
+			SiacoinInputs: []types.V2SiacoinInput{{Parent: e1, SatisfiedPolicy: types.SatisfiedPolicy{Policy: pol}}, {Parent: e2, SatisfiedPolicy: types.SatisfiedPolicy{Policy: pol}}},
+			SiacoinOutputs: []types.SiacoinOutput{{Value: cur(2000), Address: k.Addr("B")}, {Value: e1.SiacoinOutput.Value.Add(e2.SiacoinOutput.Value).Sub(cur(2010)), Address: k.Addr("A")}},
+			MinerFee:       cur(10), ArbitraryData: []byte("arbitrary data of the payment"),
+		}
+		s.v2 = []types.V2Transaction{txn}
+		t := &s.v2[0]
+		signAll := func(name string) {
+			sig := k.SK(name).SignHash(sim.CS.InputSigHash(*t))
+			for i := range t.SiacoinInputs {
+				t.SiacoinInputs[i].SatisfiedPolicy.Signatures = []types.Signature{sig}
+			}
+		}
+		s.sign = func() { signAll("A") }
+		sp1, sp2 := &t.SiacoinInputs[0].SatisfiedPolicy, &t.SiacoinInputs[1].SatisfiedPolicy
+		s.tamper["out-addr"] = func() bool { t.SiacoinOutputs[0].Address = addrC; return true }
+		s.tamper["out-split"] = func() bool {
+			t.SiacoinOutputs[0].Value, t.SiacoinOutputs[1].Value = cur(1999), t.SiacoinOutputs[1].Value.Add(cur(1))
+			return true
+		}
+		s.tamper["fee-shift"] = func() bool { t.SiacoinOutputs[0].Value, t.MinerFee = cur(1999), cur(11); return true }
+		s.tamper["arb"] = func() bool { t.ArbitraryData[3] ^= 1; return true }
+		s.tamper["sig-flip"] = func() bool { flip(&sp1.Signatures[0]); return true }
+		s.tamper["sig-drop"] = func() bool { sp1.Signatures = nil; return true }
+		s.tamper["sig-extra"] = func() bool { sp1.Signatures = append(sp1.Signatures, sp1.Signatures[0]); return true }
+		s.tamper["in2-sig-flip"] = func() bool { flip(&sp2.Signatures[0]); return true }
+		s.tamper["in2-sig-drop"] = func() bool { sp2.Signatures = nil; return true }
+		s.tamper["in2-sig-zero"] = func() bool { sp2.Signatures[0] = types.Signature{}; return true }
+		s.tamper["in2-sig-extra"] = func() bool { sp2.Signatures = append(sp2.Signatures, sp2.Signatures[0]); return true }
+		s.tamper["other-key"] = func() bool { signAll("X"); return true }
 	case "v2ephemeral":
 		v2pay(-1, k.Custom["PK"], []string{"A"}, nil)
 	case "v2uc":
